@@ -63,7 +63,27 @@ pub fn splice_position(a: &WModule, edit: &str) -> Option<usize> {
 
 /// `i32.const 0; drop` spliced in front of operator #`op_index` of local function #`local_k`
 pub fn insert_at(wasm: &[u8], a: &WModule, local_k: usize, op_index: usize) -> Option<Vec<u8>> {
-    let ins = [0x41u8, 0x00, 0x1a];
+    insert_bytes_at(wasm, a, local_k, op_index, &[0x41u8, 0x00, 0x1a])
+}
+
+/// where a block can be appended to the entry sequence of the first local function: in front of the
+/// function's final `end`, provided no operator of the entry sequence itself transfers control
+/// (the appended block would be dead code and the operator correspondence a different one)
+pub fn append_position(a: &WModule) -> Option<usize> {
+    let body = a.funcs.iter().filter_map(|f| f.body.as_ref()).next()?;
+    let mut depth = 0i32;
+    for (o, _) in &body.ops {
+        match o.name {
+            "Block" | "Loop" | "If" => depth += 1,
+            "End" => depth -= 1,
+            "Br" | "BrTable" | "Return" | "Unreachable" | "ReturnCall" | "ReturnCallIndirect" if depth == 0 => return None,
+            _ => {}
+        }
+    }
+    Some(body.ops.len() - 1)
+}
+
+pub fn insert_bytes_at(wasm: &[u8], a: &WModule, local_k: usize, op_index: usize, ins: &[u8]) -> Option<Vec<u8>> {
     let locals: Vec<&wmodel::Body> = a.funcs.iter().filter_map(|f| f.body.as_ref()).collect();
     let target = locals.get(local_k)?;
     let first_op = target.ops.get(op_index)?.1 as usize;
@@ -102,7 +122,7 @@ pub fn insert_at(wasm: &[u8], a: &WModule, local_k: usize, op_index: usize) -> O
     for (k, b) in locals.iter().enumerate() {
         if k == local_k {
             let mut nb = wasm[b.body.start as usize..first_op].to_vec();
-            nb.extend_from_slice(&ins);
+            nb.extend_from_slice(ins);
             nb.extend_from_slice(&wasm[first_op..b.body.end as usize]);
             wgen::mb::uleb(nb.len() as u64, &mut body);
             body.extend_from_slice(&nb);
@@ -166,11 +186,39 @@ pub fn check_case(c: &Case) -> CaseResult {
     let mut reference = a.clone();
     let mut shift_func: Option<u32> = None;
     let mut shift_at = 0usize;
+    let mut shift_n = 2usize;
     match edit.as_str() {
         "gc" => {
             if gc(&mut m).is_err() {
                 return r;
             }
+        }
+        "insert-block-end" => {
+            // a structured instruction appended through the positional API: block { i32.const 0; drop }
+            let pos_in = match append_position(&a) {
+                Some(p) => p,
+                None => return r,
+            };
+            let fid = match m.funcs.iter_local().map(|(id, _)| id).next() {
+                Some(f) => f,
+                None => return r,
+            };
+            let lf = m.funcs.get_mut(fid).kind.unwrap_local_mut();
+            let pos = lf.block(lf.entry_block()).instrs.len();
+            lf.builder_mut().func_body().block_at(pos, None, |b| {
+                b.i32_const(0).drop();
+            });
+            let nb = match insert_bytes_at(&c.wasm, &a, 0, pos_in, &[0x02, 0x40, 0x41, 0x00, 0x1a, 0x0b]) {
+                Some(b) => b,
+                None => return r,
+            };
+            reference = match decode(&nb) {
+                Ok(x) => x,
+                Err(_) => return r,
+            };
+            shift_func = Some(a.num_imported_funcs() as u32);
+            shift_at = pos_in;
+            shift_n = 4;
         }
         "insert" | "insert-mid" | "insert-end" => {
             // first local function in input order
@@ -254,7 +302,7 @@ pub fn check_case(c: &Case) -> CaseResult {
     }
     // expected output offset of original-input operator (fi,k)
     let expected = |fi: u32, k: usize| -> Option<u64> {
-        let kk = if shift_func == Some(fi) && k >= shift_at { k + 2 } else { k };
+        let kk = if shift_func == Some(fi) && k >= shift_at { k + shift_n } else { k };
         let corr = maps.bodies.get(&fi)?;
         let j = (*corr.op_map.get(kk)?)?;
         let bf = &b.funcs[corr.b as usize];
@@ -349,7 +397,7 @@ pub fn run(args: &Args) -> i32 {
     base.extend(crate::props::bodies::cases(args, &mut ev));
     let mut cases = vec![];
     for b in base {
-        for e in ["none", "insert", "gc", "insert-mid", "insert-end"] {
+        for e in ["none", "insert", "gc", "insert-mid", "insert-end", "insert-block-end"] {
             if b.family == "body" && e == "gc" {
                 continue;
             }
